@@ -1,7 +1,9 @@
-(** C12 obligation: the model is tied to the source.  The functions of ofxtools/header.py and ofxtools/Types.py that
-    Model/Header.v transcribes by hand (OFXHeaderBase.parse, both constructors and __str__, codec, parse_header, make_header,
-    the OneOf / Integer / String converters) have the normalised-AST hashes pinned in tools/ofxv/translate_header.py.  (The three
-    regex patterns are watched separately: a changed pattern switches the correspondence run to its deep setting.) *)
+(** C12 obligation: every function of ofxtools/header.py and ofxtools/Types.py that Model/Header.v transcribes by hand
+    (OFXHeaderBase.parse, both constructors and __str__, codec, parse_header, make_header, the OneOf / Integer / String converters)
+    raises no hard problem in the translator.  A change of such a function's source (normalised-AST hash, or the function renamed / inlined:
+    a tripwire) does not break this: it is listed in translate_header.SOURCE_CHANGES and the correspondence check - the actual tie between those
+    functions and the model - is re-run under further seeds by tools/ofxv/check.py.  The regenerated data (domains, limits,
+    version tables, codecs map) is tied by the other obligations. *)
 From OfxV Require Import Base.Prelude Gen.HeaderGen.
 Theorem source_is_pinned : header_source_is_pinned = true.
 Proof. reflexivity. Qed.
